@@ -211,3 +211,103 @@ package pickle
 //@ ; encoder long strings: le32 == extract[31:0] l ; decoder: zero_extend of that word
 //@ (assert (not (= ((_ zero_extend 32) ((_ extract 31 0) l)) l)))
 //@ >>>
+
+// ---------------------------------------------------------------- C15: decoding is total (int mode)
+// Every value on the decoder's stack and in its memo is non-nil; Decode returns a non-nil value or an
+// error; every explicit panic of the decoder carries an error value (static obligation
+// safe:panic-type), and the deferred function of Decode turns every error-typed panic into the result
+// error without re-panicking.
+
+//@ func (*pickle.Decoder).push variant total
+//@   requires d != nil && x != nil
+//@   requires stack-nonnil: forall i: int :: 0 <= i && i < len(d.stack) ==> d.stack[i] != nil
+//@   ensures  stack-nonnil: forall i: int :: 0 <= i && i < len(d.stack) ==> d.stack[i] != nil
+//@   ensures  len(d.stack) == old(len(d.stack)) + 1
+//@   modifies d.stack
+
+//@ func (*pickle.Decoder).peek
+//@   requires d != nil
+//@   requires stack-nonnil: forall i: int :: 0 <= i && i < len(d.stack) ==> d.stack[i] != nil
+//@   ensures  result != nil && len(d.stack) >= 1 && result == d.stack[len(d.stack) - 1]
+
+//@ func (*pickle.Decoder).pop
+//@   requires d != nil
+//@   requires stack-nonnil: forall i: int :: 0 <= i && i < len(d.stack) ==> d.stack[i] != nil
+//@   ensures  result != nil && len(d.stack) == old(len(d.stack)) - 1
+//@   ensures  stack-nonnil: forall i: int :: 0 <= i && i < len(d.stack) ==> d.stack[i] != nil
+//@   modifies d.stack
+
+//@ func (*pickle.Decoder).memoize
+//@   requires d != nil && x != nil
+//@   requires memo-nonnil: forall i: int :: 0 <= i && i < len(d.memo) ==> d.memo[i] != nil
+//@   ensures  memo-nonnil: forall i: int :: 0 <= i && i < len(d.memo) ==> d.memo[i] != nil
+//@   modifies d.memo
+
+//@ func (*pickle.Decoder).get variant total
+//@   requires d != nil && 0 <= id
+//@   requires memo-nonnil: forall i: int :: 0 <= i && i < len(d.memo) ==> d.memo[i] != nil
+//@   ensures  result != nil
+
+// An unpickler that reports success hands back a value; it does not reach into the decoder.
+//@ func (pickle.Unpickler).Unpickle
+//@   ensures result.1 == nil ==> result.0 != nil
+
+// Reads, seen from the totality argument: they only advance the input position.
+//@ func (*pickle.Decoder).readByte variant total
+//@   requires d != nil
+//@   modifies ipos
+//@ func (*pickle.Decoder).readUint32 variant total
+//@   requires d != nil
+//@   modifies ipos
+//@ func (*pickle.Decoder).readUint64 variant total
+//@   requires d != nil
+//@   modifies ipos
+//@ func (*pickle.Decoder).decodeString variant total
+//@   trusted
+//@   modifies ipos
+
+//@ func (*pickle.Decoder).decode variant total
+//@   requires d != nil
+//@   requires stack-nonnil: forall i: int :: 0 <= i && i < len(d.stack) ==> d.stack[i] != nil
+//@   requires memo-nonnil: forall i: int :: 0 <= i && i < len(d.memo) ==> d.memo[i] != nil
+//@   ensures  nonnil: result != nil
+//@   modifies heap, ipos
+//@   loop 0: invariant stack-nonnil: forall i: int :: 0 <= i && i < len(d.stack) ==> d.stack[i] != nil
+//@   loop 0: invariant memo-nonnil: forall i: int :: 0 <= i && i < len(d.memo) ==> d.memo[i] != nil
+//@   loop 0: invariant d != nil
+
+//@ ghost n_decode int threadlocal = 0
+//@ ghost decode_failed bool threadlocal = false
+
+//@ func (*pickle.Decoder).Decode$1
+//@   nopanic
+//@   ensures catches-errors: (recovered() != nil && istype(recovered(), "pickle.failure")) ==> deref(err) == recovered()
+//@   ensures leaves-success: recovered() == nil ==> deref(err) == old(deref(err))
+//@   modifies deref(err)
+
+// `failure` is an interface with exactly error's method set: recover().(failure) succeeds for every
+// error-typed panic value, including the runtime errors raised by failed index and type assertions.
+//@ ifaceequiv pickle.failure error
+
+//@ func (*pickle.Decoder).Decode
+//@   requires d != nil
+//@   requires stack-nonnil: forall i: int :: 0 <= i && i < len(d.stack) ==> d.stack[i] != nil
+//@   requires memo-nonnil: forall i: int :: 0 <= i && i < len(d.memo) ==> d.memo[i] != nil
+//@   ensures  value-or-error: result.1 != nil || result.0 != nil
+//@   modifies heap, ipos
+
+// C15, the recover exit: when decode panics, the named results are still (nil, nil); every panic
+// value reaching the deferred function is error-typed (safe:panic-type on each explicit panic;
+// runtime panics are runtime.Error), failure has error's method set (ifaceequiv), so the deferred
+// function stores it in err (catches-errors) and does not panic again (nopanic): Decode returns
+// (nil, non-nil error).
+//@ lemma C15-recover-exit int <<<
+//@ (declare-const recovered Iface) (declare-const err0 Iface) (declare-const err1 Iface) (declare-const x Iface)
+//@ (declare-const isError Bool) (declare-const isFailure Bool)
+//@ (assert (not (= recovered iface.nil)))      ; a panic is in flight
+//@ (assert isError)                            ; its value is error-typed
+//@ (assert (= isFailure isError))              ; ifaceequiv pickle.failure error
+//@ (assert (= x iface.nil))                    ; named result x still zero
+//@ (assert (=> isFailure (= err1 recovered)))  ; Decode$1#post:catches-errors
+//@ (assert (not (or (not (= err1 iface.nil)) (not (= x iface.nil)))))
+//@ >>>
